@@ -4,7 +4,7 @@
 //  (a) totality: every concatenation of <= 5 fragments from a 16-fragment vocabulary (keywords, punctuation, terms,
 //      escapes, comments, multi-byte characters) is parsed by parse_sparql_query / parse_combined_query and submitted
 //      to the error-preserving entry points without a panic; an accepted SELECT leaves no unconsumed input behind;
-//  (b) faithfulness: for 14 queries of the supported fragment, 7 layout variants (extra whitespace, newlines, comments,
+//  (b) faithfulness: for 14 queries of the supported fragment, 10 layout variants (extra whitespace, newlines, comments,
 //      lower/upper/mixed keyword case) parse to the same syntax tree as the canonical text.
 use kolibrie::execute_query::{execute_sparql_query, execute_sparql_update};
 use kolibrie::parser::{parse_combined_query, parse_sparql_query};
@@ -88,6 +88,9 @@ fn variants(q: &str) -> Vec<(String, String)> {
         ("newlines and tabs".into(), outside_literals(" \n\t")),
         ("comments between tokens".into(), outside_literals(" # a comment with { } and \"quotes\"\n ")),
         ("leading and trailing whitespace".into(), format!("\n  {}  \n# trailing comment", q)),
+        ("CRLF line ends".into(), outside_literals(" \r\n ")),
+        ("comments ended by a bare carriage return".into(), outside_literals(" # comment ended by CR\r ")),
+        ("comments ended by CRLF".into(), outside_literals(" # comment\r\n")),
         ("no optional white space".into(), {
             // drop a blank that touches one of { } ( ) . ; , (outside literals and IRIs)
             let cs: Vec<char> = q.chars().collect();
